@@ -286,6 +286,15 @@ func (tr *c14Transport) RoundTrip(creq *http.Request) (*http.Response, error) {
 	}, nil
 }
 
+func safeErrText(err error) (text, pan string) {
+	defer func() {
+		if r := recover(); r != nil {
+			pan = fmt.Sprint(r)
+		}
+	}()
+	return err.Error(), ""
+}
+
 // ---- multi-status rewriting ------------------------------------------------------
 
 // neutralRewrite says the same multi-status in other words: status lines with
@@ -842,7 +851,16 @@ func (ex *executor) callStep(idx int, st *Step) {
 	ex.res.Stats.FakeNS += int64(took)
 	errs := "nil"
 	if res.Err != nil {
-		errs = res.Err.Error()
+		// an error value that cannot even be printed (a nil pointer inside a
+		// non-nil error) panics in the caller's hands: the call did not "return
+		// without panicking" in any useful sense
+		var pan string
+		errs, pan = safeErrText(res.Err)
+		if pan != "" {
+			ex.res.Stats.Panics++
+			ex.finding(Violation{Prop: "C14", Clause: "panic", Class: class + " error-value", Msg: fmt.Sprintf("the call returned an error value of type %T whose Error method panics: %s", res.Err, pan), Step: idx})
+			return
+		}
 	}
 	var last *trip
 	for _, t := range tr.trips {
